@@ -15,7 +15,7 @@ structure Basis (α : Type) where
 namespace Basis
 variable {α : Type} [Arith α]
 
-private def rows3 (r0 r1 r2 : Vec 3 α) : Mat 3 3 α := fun i => match i with | 0 => r0 | 1 => r1 | 2 => r2
+def rows3 (r0 r1 r2 : Vec 3 α) : Mat 3 3 α := fun i => match i with | 0 => r0 | 1 => r1 | 2 => r2
 
 def ofInto (code : Nat) (m : Mat 3 3 α) : Basis α := ⟨code, m, Mat.transpose m⟩
 /-- `set_basis (Signal::Linear)` -/
